@@ -461,8 +461,8 @@ Inductive event :=
                                      inside the snapshot's life; it only raises strong_count while
                                      the snapshot raises it anyway, so it is not a separate step.) *)
 | EMove                           (* a trivial move was selected *)
-| ETake (r : N)                   (* reader r takes a snapshot *)
-| EDrop (r : N)                   (* reader r drops it *)
+| ETake (r : N)                   (* reader r is about to take a snapshot (its thread then steps) *)
+| EDrop (r : N)                   (* reader r is about to drop it *)
 | ECrash                          (* the store process dies *)
 | EVBegin                         (* LsmVerifier::open + verify() lists the fragments *)
 | EVStep (ok : bool)              (* next system call of the pass *)
@@ -535,9 +535,10 @@ Definition step (s : sys) (ev : event) : sys :=
   | EFlush x roll =>
       match s_p s with
       | Some p =>
-          (* one flush at a time; a new sst's setsum is fresh: no compaction in flight writes it *)
+          (* one flush at a time; a new sst's setsum is fresh: no thread is about to write it *)
           if p_ready p && negb (busy T_FLUSH p)
-             && negb (existsb (fun i => match i with IPinLink y => x =? y | _ => false end) (pc_get T_COMPACT p))
+             && forallb (fun e => negb (existsb (fun i => match i with IPinLink y => x =? y | _ => false end) (snd e)))
+                        (p_pcs p)
           then
             let old := p_lognum p in
             let logs := log_insert (mkLog (p_seq p) 0 None) (seal_log old x (f_logs (s_fs s))) in
@@ -574,14 +575,14 @@ Definition step (s : sys) (ev : event) : sys :=
       | Some p =>
           if p_ready p && negb (busy (T_READER r) p)
              && match aget (H_READER r) (p_snaps p) with None => true | Some _ => false end
-          then upd_p s (snd (exec (T_READER r) (ITake (H_READER r)) s p)) else s
+          then upd_p s (Some (pc_set (T_READER r) [ITake (H_READER r)] p)) else s
       | None => s
       end
   | EDrop r =>
       match s_p s with
       | Some p =>
-          if p_ready p && negb (busy (T_READER r) p) then upd_p s (snd (exec (T_READER r) (IDropSnap (H_READER r)) s p))
-          else s
+          if p_ready p && negb (busy (T_READER r) p)
+          then upd_p s (Some (pc_set (T_READER r) [IDropSnap (H_READER r)] p)) else s
       | None => s
       end
   | ECrash => upd_p s None
